@@ -145,8 +145,12 @@ def c07(ctx, rep):
     # every line goes through the secret stage and only the stage's result is written
     from .checks_pipe import line_loop_rules
     line_loop_rules(ctx, rep, "C07")
+    from .checks_pipe import stream_open_rule
+    stream_open_rule(ctx, rep, "C07")
     from .checks_pipe import independent_wiring
     independent_wiring(ctx, rep, "C07", only=("compiled_regexes", "pwd_lookup"))
+    from .checks_pipe import import_clauses
+    import_clauses(ctx, rep, "C07", "C09", c09, ("C09.replacement-verbatim",))  # a template would let a back-reference in the kept prefix re-insert the secret group
 
 
 def _one_lookup_per_run(ctx, rep, cl):
@@ -190,6 +194,9 @@ def c08(ctx, rep):
     rep.assume("md5-crypt under a fixed salt is injective in the counter up to hash collisions", "C18: the $9$ codec round-trips (decrypt(encrypt(p)) = p)")
     from .checks_misc import stage_state_rule
     stage_state_rule(ctx, rep, "C08", ["replace_matching_item", "juniper_decrypt", "juniper_nonrandom_encrypt"])
+    from .checks_pipe import line_loop_rules, stream_open_rule
+    line_loop_rules(ctx, rep, "C08")  # equal secrets on different lines meet in one lookup only if every line is one unit of work
+    stream_open_rule(ctx, rep, "C08")
     secret_flow.check_anonymize_value(ctx, rep, "C08")
     _one_lookup_per_run(ctx, rep, "C08")
     _enclosing_lists(ctx, rep, "C08")
@@ -244,6 +251,8 @@ def c09(ctx, rep):
     rep.trust(*TRUST_SECRET)
     rep.assume("passlib's outputs decode with independent decoders (third-party)", "$9$ decodability is C18")
     classifier.check(ctx, rep, "C09")
+    from .checks_pipe import stream_open_rule
+    stream_open_rule(ctx, rep, "C09")
     _juniper_standard_tables(ctx, rep, "C09")
     secret_flow.check_anonymize_value(ctx, rep, "C09")
     secret_struct.check_table(ctx, rep, "C09", want_catchalls=False)
@@ -363,6 +372,8 @@ def c10(ctx, rep):
     stage_state_rule(ctx, rep, "C10", ["SensitiveWordAnonymizer"])
     from .checks_pipe import independent_wiring
     independent_wiring(ctx, rep, "C10", only=("anonymizer_sensitive_word",))
+    from .checks_ip import option_spec_rule
+    option_spec_rule(ctx, rep, "C10", only=("--sensitive-words", "--reserved-words"))
     swa = p.find_class("SensitiveWordAnonymizer")
     init = swa.find_method("__init__")
     rep.analysed(init)
